@@ -251,9 +251,40 @@ func TestC11N_Exchange(t *testing.T) {
 
 func genC11Doc(t *rapid.T) (historyCase, string) {
 	mix := opMix{sets: true, delObj: true, delArr: true, setNullContainer: true, nullRoot: true}
-	kind := rapid.IntRange(0, 9).Draw(t, "c11doc")
-	if kind >= 3 {
+	kind := rapid.IntRange(0, 10).Draw(t, "c11doc")
+	if kind >= 4 {
 		return genHistory(t, mix, 6, editProfiles), "edited-doc"
+	}
+	if kind == 3 {
+		// one long NOP run (tens to thousands of entries) in the middle of live data: a big member is deleted or set to
+		// null, or a long run of elements is deleted from it
+		n := rapid.IntRange(40, 1500).Draw(t, "biglen")
+		el := []string{"1", "2.5", `"s"`, "null", `{"k":[1]}`, "[[]]"}[rapid.IntRange(0, 5).Draw(t, "bigel")]
+		var b bytes.Buffer
+		b.WriteString(`{"keep":[1,"two"],"big":[`)
+		for i := 0; i < n; i++ {
+			if i > 0 {
+				b.WriteByte(',')
+			}
+			b.WriteString(el)
+		}
+		b.WriteString(`],"after":"x","tail":{"a":1.5,"b":[true]}}`)
+		var op editOp
+		switch rapid.IntRange(0, 2).Draw(t, "bigop") {
+		case 0:
+			op = editOp{Kind: "SetNull", Path: []int{0, 1}, Nav: rapid.IntRange(0, 1).Draw(t, "nav")}
+		case 1:
+			op = editOp{Kind: "DelObj", Path: []int{0}, Nav: 1, UseFn: true, Del: []bool{false, true, false, false}}
+		default:
+			at := rapid.IntRange(0, n-1).Draw(t, "at")
+			ln := rapid.IntRange(1, n-at).Draw(t, "ln")
+			del := make([]bool, n)
+			for i := at; i < at+ln; i++ {
+				del[i] = true
+			}
+			op = editOp{Kind: "DelArr", Path: []int{0, 1}, Nav: 1, UseFn: true, Del: del}
+		}
+		return historyCase{Doc: b.Bytes(), Copy: rapid.Bool().Draw(t, "copy"), Ops: []editOp{op}}, "long-nop-run"
 	}
 	// shapes that stress the string table and the 64 KiB flush blocks
 	var b bytes.Buffer
